@@ -159,6 +159,10 @@ def check(ctx):
     ret = origins(rl, {"l": 0, "p": []})
     ctx.require(R4, ret.via_any("core::str::<impl str>::trim"), "%s:%s" % (rl.file, rl.line), "the value is trimmed (no trailing newline)", ["tacd::read_line", "trim"])
 
+    # --crt-signature-alg / --crt-digest: every documented name selects its key type / digest (a name that no longer parses makes
+    # tacd exit before serving anything for that key type)
+    from .crypto_tables import parse_tables
+    parse_tables(ctx, R4, only=("acme_common::crypto::key_type::KeyType", "acme_common::crypto::BaseHashFunction"))
     R5 = ctx.rule("R5", "gen_certificate: one dNSName SAN = domain; extension from the name=value split; subject = issuer; same key for pubkey and signature; validity now..now+N days, N > 0")
     g = prog.must_body(GEN)
     san_new = g.calls_to("openssl::x509::extension::SubjectAlternativeName::new")
